@@ -817,8 +817,9 @@ func parseTags(text string, basePos Position) []ast.Tag {
 			}
 		}
 
-		startCol := basePos.Column + 1 + tagStart
-		endCol := basePos.Column + 1 + tagEnd
+		// columns count UTF-16 code units, tagStart and tagEnd are byte offsets
+		startCol := basePos.Column + 1 + textColumns(text[:tagStart])
+		endCol := basePos.Column + 1 + textColumns(text[:tagEnd])
 
 		tags = append(tags, ast.Tag{
 			Name:  name,
@@ -833,6 +834,14 @@ func parseTags(text string, basePos Position) []ast.Tag {
 	}
 
 	return tags
+}
+
+func textColumns(s string) int {
+	columns := 0
+	for _, r := range s {
+		columns += columnWidth(r)
+	}
+	return columns
 }
 
 func isValidTagName(name string) bool {
